@@ -508,7 +508,9 @@ func runDict(c *hx.Ctx, d wo, data []byte, known [][]byte, e expect) ([]byte, bo
 		kase.Want = "err"
 	}
 	c.Check("C05/panic-decode", pan == "", kase, func() string { return "Decode panicked: " + pan })
-	c.Op("c05.sd "+d.w+" "+hx.Hex(data)+" "+inflateTableDict(dict, data, known), reply)
+	table := inflateTableDict(dict, data, known)
+	c.Op("c05.sd "+d.w+" "+hx.Hex(data)+" "+table, reply)
+	litDict(c, d.w, data, table, reply)
 	if e.hasWant {
 		c.Check(e.key, ok && bytes.Equal(out, e.want), kase, func() string {
 			return fmt.Sprintf("decode(encode(x)) != x: dict=%s data=%s: got %s want ok %s", clip(d.w), clip(hx.Hex(data)), clip(reply), clip(hx.Hex(e.want)))
@@ -592,6 +594,8 @@ func pipelineWrites(c *hx.Ctx, stages []stage, flIn [][]byte, mids [][]byte) {
 	}
 	c.Op("c05.writes "+stagesWire(stages)+" "+tab+" "+strings.Join(ms, " "), want)
 	c.Count("writes-checked:" + want)
+	// the lenient hypothesis `ChainWritesLax` (Props/C05Lax.lean) covers the NoZ style too
+	c.Op("c05.writeslax "+stagesWire(stages)+" "+tab+" "+strings.Join(ms, " "), "true")
 }
 
 // conformingDeco: freedoms a conforming writer has (the oracle still demands the round trip).
@@ -985,6 +989,7 @@ func RunDictLevel(c *hx.Ctx) {
 	ccittBoundCases(c)
 	junkDicts(c)
 	sessions(c)
+	heapHistories(c)
 }
 
 // replayDict re-runs a recorded dictionary-level or history case.
